@@ -241,6 +241,25 @@ pub fn minimise_and_write(bin: &str, case: &mut Case, viol: &Violation, prop: &s
                 }
             }
         }
+        // smaller instances of the same kind
+        for ii in 0..case.insts.len() {
+            if let crate::world::Spec::Planned(pk, len) = case.insts[ii].spec.clone() {
+                for cand in [1usize, 2, 3, 4, 5, 6, 7, 8, 9, 10, 11, 12, 13, 16, 17, 24, 31, 32, 37, 59, 64, 97, 128, 243, 256, 1024] {
+                    if cand >= len {
+                        break;
+                    }
+                    let mut c = case.clone();
+                    c.insts[ii].spec = crate::world::Spec::Planned(pk, cand);
+                    if let Some((d, lh)) = try_case(&c, &mut evals) {
+                        *case = c;
+                        detail = d;
+                        log_hash = lh;
+                        progress = true;
+                        break;
+                    }
+                }
+            }
+        }
         if case.twin {
             let mut c = case.clone();
             c.twin = false;
